@@ -701,6 +701,8 @@ def big_new(eng, st, v):
 
 
 def bv_to_big(x, bits):
+    if isinstance(x, z3.ArithRef):
+        return x  # integer mode: big.Int values stay mathematical integers
     if is_sym(x):
         return z3.ZeroExt(BIGBITS - bits, x) if bits < BIGBITS else x
     return x
@@ -822,6 +824,10 @@ def big_fillbytes(eng, st, fr, args, ins):
 def _cmp_val(eng, a, b):
     if not is_sym(a) and not is_sym(b):
         return (a > b) - (a < b)
+    if isinstance(a, z3.ArithRef) or isinstance(b, z3.ArithRef):
+        from symex import toarith
+        x, y = toarith(a), toarith(b)
+        return z3.If(x < y, z3.IntVal(-1), z3.If(x == y, z3.IntVal(0), z3.IntVal(1)))
     ab, bb = tobv(a, BIGBITS), tobv(b, BIGBITS)
     return z3.If(z3.ULT(ab, bb), z3.BitVecVal(-1, 64), z3.If(ab == bb, z3.BitVecVal(0, 64), z3.BitVecVal(1, 64)))
 
@@ -844,6 +850,8 @@ def big_uint64(eng, st, fr, args, ins):
     v = big_get(eng, st, args[0])
     if not is_sym(v):
         return v & ((1 << 64) - 1)
+    if isinstance(v, z3.ArithRef):
+        return z3.simplify(v % (1 << 64))
     return concretize_bv(z3.Extract(63, 0, v), 64, False)
 
 
